@@ -25,6 +25,18 @@ CHECKS = {
     "C06": dict(cat="fault_enumeration", tech="runtime monitoring: cancel at every logged event index / certain event / schedule point; signal-reachability + conservation monitors, deadlock oracle, bounded-time re-check",
                 text="For every enumerated cancellation instant the run returned (no deadlock), every plugin executing at cancellation received the cancel signal before being closed (or was closed if it has no handler), nothing stayed open, outputs had produced dependencies, and the stated time bound held.",
                 note="Time bound is wall-clock with slack and isolated re-run; other oracles are logical.", ref="8/C06"),
+    "C07": dict(cat="exploration", tech="runtime monitoring: child-process exit oracle (panic / fatal error / deadlock) over run-time-failing expressions at every field position and misbehaving scripted plugins",
+                text="None of the explored runs of accepted workflows on valid input killed the process: every injected evaluation fault (23 classes x 13 positions) and plugin misbehaviour ended in a returned error or output.",
+                note="Trusted: child exit status and stderr classification; fault classes are the enumerated ones only.", ref="8/C07"),
+    "C08": dict(cat="exploration", tech="runtime monitoring: schema-validation monitors at the plugin boundary and on returned outputs, 'bug:' scan, coverage table over every referencable (stage, output, field)",
+                text="For every referencable stage output and field of both step kinds, routed to workflow outputs, `any` inputs and typed inputs, the values observed at the plugin boundary were accepted by the step's own schema, returned outputs unserialized with OutputSchema(), values equalled the reference and no 'bug:' error occurred.",
+                note="'Conforms' means accepted by the declared schema's Unserialize. One cell (ref-typed field inferred into a workflow output) is blocked by a known C11 finding.", ref="8/C08"),
+    "C09": dict(cat="exploration", tech="runtime monitoring: schedule-point instrumentation (AST-spliced), single-site delay sweep over every hit point plus hash-determined multi-site plans; oracle = reference result",
+                text="Under every executed delay plan (each hit schedule point x hit x delay, and random multi-site plans) the 14 single-result programs returned their reference result, except inside one recorded window (known finding). Delay placements and lengths are sampled, not exhausted.",
+                note="Trusted: instrumenter places points before lock/channel/wait-group/go statements of workflow.go and both providers; Go goroutines are preemptible at those places.", ref="8/C09"),
+    "C17": dict(cat="exploration", tech="Go race detector (-race build of engine + harness) over run, delay, cancellation, overlapping-run and parallel parse/prepare workloads; reports de-duplicated by frame pair",
+                text="No data race with an engine frame was reported on the explored executions apart from the listed known finding (lazy default-value cache of the plugin SDK shared by overlapping runs).",
+                note="Only executed interleavings; detector history window is bounded.", ref="8/C17"),
 }
 
 NOT_APPLICABLE = {}
